@@ -23,6 +23,29 @@ Definition get_idx (d : bytes) (p : Z) : result byte := of_option EIndex (index 
 (* bytearray(n): n < 0 raises *)
 Definition bytearray (n : Z) : result bytes := if n <? 0 then Err EValue else Ok (zeros (Z.to_nat n)).
 
+(* a decode is a sequence of writes into the decoder's buffer; each chunk may fail to be produced *)
+Fixpoint collect {A} (l : list (result (list A))) : result (list A) :=
+  match l with
+  | [] => Ok []
+  | r :: rest => let! a := r in let! b := collect rest in Ok (a ++ b)
+  end.
+(* chunks are produced one after another; a later chunk is not computed when an earlier one fails *)
+Definition part := unit -> result bytes.
+Fixpoint collect_parts (l : list part) : result bytes :=
+  match l with
+  | [] => Ok []
+  | p :: rest => let! a := p tt in let! b := collect_parts rest in Ok (a ++ b)
+  end.
+Definition fits_i32 (z : Z) : bool := (- 2147483648 <=? z) && (z <? 2147483648).
+Definition fits_i16 (z : Z) : bool := (- 32768 <=? z) && (z <? 32768).
+(* 'BM' is written before struct.pack('<ihhi', size, 0, 0, offset) is evaluated *)
+Definition hdr_parts (size offset : Z) : list part :=
+  [fun _ => Ok ["B"; "M"]%byte;
+   fun _ => if fits_i32 size && fits_i32 offset then Ok (pack 4 Little size ++ pack 2 Little 0 ++ pack 2 Little 0 ++ pack 4 Little offset)
+            else Err EStruct].
+Definition info_part (w h bpp ncolors : Z) : part :=
+  fun _ => if fits_i32 w && fits_i32 h then Ok (bmp_info_header w h bpp ncolors) else Err EStruct.
+
 Record st := { s_data : bytes; s_x : Z; s_y : Z; s_idx : Z }.
 
 (* ===================== 8 bit ===================== *)
@@ -112,19 +135,19 @@ Definition decode_raw8 (f : bytes) (w0 h pw ph width w_size : Z) : result bytes 
 
 Definition stride4 (w : Z) : Z := if w mod 4 >? 0 then w + 4 - w mod 4 else w.
 
-Definition decode8 (f : bytes) (bw bh pw ph : Z) (pname pdata : bytes) : result bytes :=
+Definition parts8 (f : bytes) (bw bh pw ph : Z) (pname pdata : bytes) : list part :=
   let '(bh, ph) := if ph <? 0 then (bh - ph, 0) else (bh, ph) in
   let size := bw * bh + 256 * 4 + 40 + 14 in
   let offset := 256 * 4 + 40 + 14 in
-  let! pal := write_color_palette 8 256 pname pdata in
   let width := stride4 bw in
   let w := bw - pw in
   let w_size := w + w mod 2 in
-  let! bmp := if zlen f =? w_size * (bh - ph) then decode_raw8 f bw bh pw ph width w_size
-              else decode_compressed8 f bw bh pw ph width in
-  (* struct.pack('<i', ...) of size/width/height: out of range raises *)
-  if negb ((- 2147483648 <=? size) && (size <? 2147483648)) then Err EStruct else
-  Ok (bmp_header size offset ++ bmp_info_header bw bh 8 256 ++ pal ++ bmp).
+  hdr_parts size offset ++
+  [info_part bw bh 8 256; fun _ => write_color_palette 8 256 pname pdata;
+   fun _ => if zlen f =? w_size * (bh - ph) then decode_raw8 f bw bh pw ph width w_size
+            else decode_compressed8 f bw bh pw ph width].
+Definition decode8 (f : bytes) (bw bh pw ph : Z) (pname pdata : bytes) : result bytes :=
+  collect_parts (parts8 f bw bh pw ph pname pdata).
 
 (* ===================== 1 bit ===================== *)
 Definition bit_of (v : Z) (j : Z) : byte := byte_of_Z ((v / 2 ^ (7 - j)) mod 2).
@@ -223,21 +246,22 @@ Definition decode_raw1 (f : bytes) (w0 h pw ph width w_size : Z) : result bytes 
   let! data := bytearray (width * h) in
   raw_rows1 (S (Z.to_nat h)) f data (h - 1 - ph) (w0 - pw) width pw w_size 0.
 
-Definition decode1 (f : bytes) (bw bh pw ph : Z) (pname pdata : bytes) : result bytes :=
+Definition parts1 (f : bytes) (bw bh pw ph : Z) (pname pdata : bytes) : list part :=
   let '(bh, ph) := if ph <? 0 then (bh - ph, 0) else (bh, ph) in
   let size := bw * bh + 2 * 4 + 40 + 14 in
   let offset := 2 * 4 + 40 + 14 in
-  let! pal := write_color_palette 1 2 pname pdata in
   let width := stride4 bw in
   let w := bw - pw in
   (* int(w/8): float division then truncation toward zero *)
   let w_size := Z.quot w 8 in
   let w_size := if w mod 8 >? 0 then w_size + 1 else w_size in
   let w_size := w_size + w_size mod 2 in
-  let! bmp := if zlen f =? w_size * (bh - ph) then decode_raw1 f bw bh pw ph width w_size
-              else decode_compressed1 f bw bh pw ph width in
-  if negb ((- 2147483648 <=? size) && (size <? 2147483648)) then Err EStruct else
-  Ok (bmp_header size offset ++ bmp_info_header bw bh 8 2 ++ pal ++ bmp).
+  hdr_parts size offset ++
+  [info_part bw bh 8 2; fun _ => write_color_palette 1 2 pname pdata;
+   fun _ => if zlen f =? w_size * (bh - ph) then decode_raw1 f bw bh pw ph width w_size
+            else decode_compressed1 f bw bh pw ph width].
+Definition decode1 (f : bytes) (bw bh pw ph : Z) (pname pdata : bytes) : result bytes :=
+  collect_parts (parts1 f bw bh pw ph pname pdata).
 
 (* ===================== 16 bit ===================== *)
 Fixpoint put_n (n : nat) (data : bytes) (x y width : Z) (v : byte) : result (bytes * Z) :=
@@ -292,11 +316,6 @@ Fixpoint loop16 (fuel : nat) (f : bytes) (s : st) (w width : Z) : result st :=
 
 (* the plane de-interleaving loops, written as the list they fill *)
 Fixpoint zrange (n : nat) : list Z := match n with O => [] | S m => zrange m ++ [Z.of_nat m] end.
-Fixpoint collect {A} (l : list (result (list A))) : result (list A) :=
-  match l with
-  | [] => Ok []
-  | r :: rest => let! a := r in let! b := collect rest in Ok (a ++ b)
-  end.
 Definition mix16 (data : bytes) (w h : Z) : result bytes :=
   collect (map (fun y =>
     collect (map (fun x =>
@@ -316,16 +335,15 @@ Definition bmp_info_header16 (w h bpp : Z) : bytes :=
   u32 3 ++ u32 0 ++ u32 0 ++ u32 0 ++ u32 0 ++ u32 0 ++ u32 31744 ++ u32 992 ++ u32 31 ++ u32 0 ++ u32 1934772034 ++
   concat (repeat (u32 0) 12) ++ u32 2 ++ u32 0 ++ u32 0 ++ u32 0.
 
-Definition fits_i32 (z : Z) : bool := (- 2147483648 <=? z) && (z <? 2147483648).
-
-Definition decode16 (f : bytes) (bw bh pw ph : Z) : result bytes :=
+Definition parts16 (f : bytes) (bw bh pw ph : Z) : list part :=
   let '(bh, ph) := if ph <? 0 then (bh - ph, 0) else (bh, ph) in
   let size := bw * bh * 2 + 124 + 14 in
-  if negb (fits_i32 size && fits_i32 bw && fits_i32 bh) then Err EStruct else
   let width := bw * 2 in
   let w_size := (bw - pw) * 2 in
-  let! bmp := if zlen f =? w_size * (bh - ph) then Err ENotImpl else decode_compressed16 f bw bh width in
-  Ok (bmp_header size 138 ++ bmp_info_header16 bw bh 16 ++ bmp).
+  hdr_parts size 138 ++
+  [fun _ => if fits_i32 bw && fits_i32 bh then Ok (bmp_info_header16 bw bh 16) else Err EStruct;
+   fun _ => if zlen f =? w_size * (bh - ph) then Err ENotImpl else decode_compressed16 f bw bh width].
+Definition decode16 (f : bytes) (bw bh pw ph : Z) : result bytes := collect_parts (parts16 f bw bh pw ph).
 
 (* ===================== 24 / 32 bit ===================== *)
 Fixpoint loop24 (fuel : nat) (f : bytes) (s : st) (width : Z) : result st :=
@@ -363,22 +381,70 @@ Definition decode_compressed24 (f : bytes) (w h width : Z) : result bytes :=
   let! _ := bytearray (w * 3 * h) in
   mix24 (s_data s) w h.
 
-Definition decode24 (f : bytes) (bw bh pw ph : Z) : result bytes :=
+Definition parts24 (f : bytes) (bw bh pw ph : Z) : list part :=
   let '(bh, ph) := if ph <? 0 then (bh - ph, 0) else (bh, ph) in
   let size := bw * bh * 3 + 40 + 14 in
-  if negb (fits_i32 size && fits_i32 bw && fits_i32 bh) then Err EStruct else
   let width := bw * 4 in
   let w_size := (bw - pw) * 2 in
-  let! bmp := if zlen f =? w_size * (bh - ph) then Err ENotImpl else decode_compressed24 f bw bh width in
-  Ok (bmp_header size 54 ++ bmp_info_header bw bh 24 0 ++ bmp).
+  hdr_parts size 54 ++
+  [info_part bw bh 24 0;
+   fun _ => if zlen f =? w_size * (bh - ph) then Err ENotImpl else decode_compressed24 f bw bh width].
+Definition decode24 (f : bytes) (bw bh pw ph : Z) : result bytes := collect_parts (parts24 f bw bh pw ph).
+
+(* 4 bit: headers and palette are written, then NotImplementedError *)
+Definition parts4 (f : bytes) (bw bh pw ph : Z) (pname pdata : bytes) : list part :=
+  let '(bh, ph) := if ph <? 0 then (bh - ph, 0) else (bh, ph) in
+  hdr_parts (bw * bh + 16 * 4 + 40 + 14) (16 * 4 + 40 + 14) ++
+  [info_part bw bh 4 16; fun _ => write_color_palette 4 16 pname pdata; fun _ => Err ENotImpl].
 
 (* ===================== bitd2bmp ===================== *)
 Definition s_bw : bytes := ["b";"l";"a";"c";"k";" ";"a";"n";"d";" ";"w";"h";"i";"t";"e"]%byte.
 Definition s_none : bytes := ["n";"o";"n";"e"]%byte.
+Definition decoder_of (depth : Z) : option Z :=       (* which decoder object (keyed by its own depth) *)
+  if depth =? 1 then Some 1 else if depth =? 4 then Some 4 else if depth =? 8 then Some 8
+  else if depth =? 16 then Some 16 else if (depth =? 24) || (depth =? 32) then Some 24 else None.
+Definition bitd_parts (w h depth pw ph : Z) (palette_txt clut f : bytes) : list part :=
+  if depth =? 1 then parts1 f w h pw ph s_bw clut
+  else if depth =? 8 then parts8 f w h pw ph palette_txt clut
+  else if depth =? 16 then parts16 f w h pw ph
+  else if (depth =? 24) || (depth =? 32) then parts24 f w h pw ph
+  else if depth =? 4 then parts4 f w h pw ph s_none clut
+  else [fun _ => Err EValue].
+(* stateless view: the BMP of one decode started on an empty buffer *)
 Definition bitd2bmp (w h depth pw ph : Z) (palette_txt clut f : bytes) : result bytes :=
-  if depth =? 1 then decode1 f w h pw ph s_bw clut
-  else if depth =? 8 then decode8 f w h pw ph palette_txt clut
-  else if depth =? 16 then decode16 f w h pw ph
-  else if (depth =? 24) || (depth =? 32) then decode24 f w h pw ph
-  else if depth =? 4 then Err ENotImpl
-  else Err EValue.
+  collect_parts (bitd_parts w h depth pw ph palette_txt clut f).
+
+(* stateful view (C13): every decoder object owns a buffer; bitd2bmp empties it, decode appends its
+   chunks until one fails, getBmpImage returns and empties it *)
+Fixpoint run_parts (buf : bytes) (ps : list part) : bytes * option errkind :=
+  match ps with
+  | [] => (buf, None)
+  | p :: rest =>
+    match p tt with
+    | Ok b => run_parts (buf ++ b) rest
+    | Err e => (buf, Some e)
+    | OutOfFuel => (buf, Some EOther)
+    end
+  end.
+Definition bufs := list (Z * bytes).      (* decoder key -> buffer content *)
+Fixpoint get_buf (bs : bufs) (k : Z) : bytes :=
+  match bs with [] => [] | (k', b) :: r => if k' =? k then b else get_buf r k end.
+Fixpoint set_buf (bs : bufs) (k : Z) (b : bytes) : bufs :=
+  match bs with [] => [(k, b)] | (k', b') :: r => if k' =? k then (k, b) :: r else (k', b') :: set_buf r k b end.
+Record bitd_args := { a_w : Z; a_h : Z; a_depth : Z; a_pw : Z; a_ph : Z; a_pt : bytes; a_clut : bytes; a_f : bytes }.
+Definition bitd_step (bs : bufs) (a : bitd_args) : bufs * result bytes :=
+  match decoder_of (a_depth a) with
+  | None => (bs, Err EValue)
+  | Some k =>
+    let start : bytes := [] in                      (* decoder.bytesIo = io.BytesIO() in bitd2bmp *)
+    let '(buf, e) := run_parts start (bitd_parts (a_w a) (a_h a) (a_depth a) (a_pw a) (a_ph a) (a_pt a) (a_clut a) (a_f a)) in
+    match e with
+    | None => (set_buf bs k [], Ok buf)
+    | Some err => (set_buf bs k buf, Err err)
+    end
+  end.
+Fixpoint bitd_history (bs : bufs) (h : list bitd_args) : list (result bytes) :=
+  match h with
+  | [] => []
+  | a :: rest => let '(bs', r) := bitd_step bs a in r :: bitd_history bs' rest
+  end.
